@@ -3,6 +3,7 @@ package interp
 // Exhaustive path exploration by re-execution, with parallel workers.
 
 import (
+	"sync/atomic"
 	"fmt"
 	"go/token"
 	"go/types"
@@ -29,9 +30,12 @@ type Options struct {
 	Twin         bool
 	Deadline     time.Time
 	StopOnFirst  bool
+	witnessTickets int64
 	Fixed        map[string]string // translator validation: nondets pinned to concrete values
 	FixedChoices map[string]int    // vxChoose values pinned (symx-level replay)
 	Transcript   string            // directory for solver transcripts (debug)
+	WitnessMax   int               // sample up to this many completed paths with a concrete witness (inputs + choices)
+	WitnessEvery int               // take every k-th completed path as a candidate (default 1)
 	Trace        bool
 }
 
@@ -72,6 +76,14 @@ type Result struct {
 	Wall          time.Duration
 	Truncated     bool // MaxPaths or deadline hit
 	DistinctCases map[string]int
+	Witnesses     []Witness // concrete inputs of sampled completed paths (for native re-execution)
+}
+
+// Witness is a concrete input vector on which the symbolic run completed a path without
+// violation: the native run of the harness on it must satisfy every assumption and assertion.
+type Witness struct {
+	Inputs  map[string]string
+	Choices map[string]int
 }
 
 func (r *Result) Clean() bool {
@@ -127,6 +139,7 @@ type pathResult struct {
 	ps      *PathState
 	steps   int64
 	funcs   map[*ssa.Function]int64
+	witness *Witness
 }
 
 func runPath(h *Harness, s *Solver, prefix []int32, opt *Options) (res pathResult) {
@@ -139,6 +152,15 @@ func runPath(h *Harness, s *Solver, prefix []int32, opt *Options) (res pathResul
 	}
 	i := newInterp(h, ps, opt)
 	res.ps = ps
+	wantWitness := false
+	if opt.WitnessMax > 0 {
+		every := int64(opt.WitnessEvery)
+		if every <= 0 {
+			every = 1
+		}
+		n := atomic.AddInt64(&opt.witnessTickets, 1)
+		wantWitness = (n-1)%every == 0 && (n-1)/every < int64(opt.WitnessMax)*4
+	}
 	s.send("(push)")
 	defer func() {
 		res.steps = i.Steps
@@ -205,6 +227,24 @@ func runPath(h *Harness, s *Solver, prefix []int32, opt *Options) (res pathResul
 		}
 		for k := range ps.Viol {
 			ps.Viol[k].ChoiceVals = ps.ChoiceVals
+		}
+		if wantWitness && res.outcome == PathDone && len(ps.Viol) == 0 && !ps.ExpectPanic {
+			func() {
+				defer func() { recover() }()
+				var in map[string]string
+				if ps.mValid && !ps.NoModel {
+					in = ps.modelInputs()
+				} else if s.check() == "sat" {
+					in = ps.model()
+				}
+				if in != nil {
+					ch := map[string]int{}
+					for k, v := range ps.ChoiceVals {
+						ch[k] = v
+					}
+					res.witness = &Witness{Inputs: in, Choices: ch}
+				}
+			}()
 		}
 		func() {
 			defer func() { recover() }()
@@ -350,6 +390,9 @@ func Explore(h *Harness, opt Options) *Result {
 				res.DistinctCases[strings.Join(pr.ps.Choices, " ")]++
 			}
 			res.Violations = append(res.Violations, pr.ps.Viol...)
+			if pr.witness != nil && len(res.Witnesses) < opt.WitnessMax {
+				res.Witnesses = append(res.Witnesses, *pr.witness)
+			}
 			if len(pr.ps.Observes) > 0 && len(res.Observes) < 8 {
 				res.Observes = append(res.Observes, pr.ps.Observes)
 			}
